@@ -33,6 +33,8 @@ const (
 	typeParit = 0xf2
 	mtuLimit  = 1500
 	conv      = 0x11223344
+
+	maxLiveSets = 4 // maxShardSets + 1
 )
 
 // sent describes one packet emitted by the sender's encoder.
@@ -63,6 +65,7 @@ type runner struct {
 	constructD int
 	constructP int
 	keepRec    bool
+	maxSets    int  // largest number of live shard sets seen in this run
 	young      bool // scenario: fresh decoder, no newestShardId preset, ids far from 0
 	inject     bool // mismatchCase: feed one stray packet with a contradicting type before the run
 	alternate  bool // mismatchCase: deterministic pre-history (every second packet lost)
@@ -361,6 +364,7 @@ func (x *runner) feed(pkt []byte, s *sent) kcp.VerifFECDecoderState {
 	x.o.Count("op:d")
 	if pm != "" {
 		x.logOp("d "+hx.Hex(pkt), "panic")
+		x.o.Count("d:panic")
 		if len(pkt) >= fecHdr && len(pkt) <= mtuLimit {
 			x.viol("fec-panic", fmt.Sprintf("decode panicked on a %d-byte packet: %s", len(pkt), pm))
 		}
@@ -382,11 +386,23 @@ func (x *runner) feed(pkt []byte, s *sent) kcp.VerifFECDecoderState {
 	if post.ShouldTune {
 		x.o.Count("d:tuning")
 	}
-	// the decoder keeps the newest group and at most maxShardSets groups behind it (plus, transiently,
-	// one that is about to be discarded): anything more means shard sets are no longer collected
-	if len(post.Sets) > 8 {
-		x.viol("fec-horizon-unbounded", fmt.Sprintf("decoder %d/%d holds %d shard sets after seq %d (newestShardId %d)",
-			post.DataShards, post.ParityShards, len(post.Sets), binary.LittleEndian.Uint32(pkt), post.NewestShardID))
+	// C05 "cannot bloat": after discardShards only the newest group and the maxShardSets groups behind
+	// it are alive (Props/C05Fec: at most maxShardSets+1 shard sets, each with fewer than dataShards
+	// packets of at most mtuLimit bytes) — for ANY packet sequence, forged ids included
+	held := 0
+	for _, st := range post.Sets {
+		held += len(st.SeqIDs)
+		if len(st.SeqIDs) >= max(post.DataShards, 1) && post.DataShards > 0 {
+			x.viol("fec-shardsets-unbounded", fmt.Sprintf("decoder %d/%d: shard set %d holds %d packets (>= dataShards) after seq %d",
+				post.DataShards, post.ParityShards, st.ID, len(st.SeqIDs), binary.LittleEndian.Uint32(pkt)))
+		}
+	}
+	if len(post.Sets) > maxLiveSets {
+		x.viol("fec-shardsets-unbounded", fmt.Sprintf("decoder %d/%d holds %d shard sets (%d packets) after seq %d (newestShardId %d); bound maxShardSets+1 = %d",
+			post.DataShards, post.ParityShards, len(post.Sets), held, binary.LittleEndian.Uint32(pkt), post.NewestShardID, maxLiveSets))
+	}
+	if len(post.Sets) > x.maxSets {
+		x.maxSets = len(post.Sets)
 	}
 	if post.DataShards != pre.DataShards || post.ParityShards != pre.ParityShards {
 		x.retuned = true
@@ -905,6 +921,106 @@ func (x *runner) youngDecoder(d, p int, pos uint32, groups int) {
 	x.o.Res.Cases--
 }
 
+// crafted builds a forged packet with the given id whose type matches its position under d/n (so that
+// the decoder does not start tuning) and a small payload.
+func (x *runner) crafted(id uint32, d, n int) []byte {
+	pl := x.g.Bytes(1 + x.g.Intn(6))
+	b := make([]byte, fecHdr+2+len(pl))
+	binary.LittleEndian.PutUint32(b, id)
+	t := uint16(typeParit)
+	if int(id%uint32(n)) < d {
+		t = typeData
+	}
+	binary.LittleEndian.PutUint16(b[4:], t)
+	binary.LittleEndian.PutUint16(b[6:], uint16(len(pl)+2))
+	copy(b[8:], pl)
+	return b
+}
+
+// hostileIDs feeds forged id sequences to a fresh decoder (C05: arbitrary byte strings cannot bloat the
+// decoder).  The bound on live shard sets / held packets is checked in feed after every packet.
+//
+//	antipodal   ids exactly 2^31 away from the newest group (the fixed point of the signed comparison:
+//	            int32(a-b) = int32(b-a) = -2^31), alternating with ids that advance the newest group
+//	farjump     the newest group jumps by almost 2^31 so that the groups just behind it appear "ahead"
+//	alternate   two far-apart id ranges alternating
+//	high        ids >= 2^31 on a young decoder
+//	paws        ids around the wrap value
+//	random      uniformly random ids
+func (x *runner) hostileIDs(d, p int, pattern string, steps int) {
+	x.key.Reset()
+	x.o.Case("")
+	x.o.Count("hostile:" + pattern)
+	x.kcpMode = false
+	x.newEnc(d, p, 0, 0) // unused; keeps the sender bookkeeping defined
+	x.newDec(d, p)
+	n := d + p
+	un := uint32(n)
+	paws := pawsOf(n)
+	base := (x.g.U32() % (1 << 30)) / un * un
+	cur := base
+	caseMax := 0
+	for i := 0; i < steps; i++ {
+		var id uint32
+		switch pattern {
+		case "antipodal":
+			if i%2 == 0 {
+				cur += un // advance the newest group by one
+				id = cur
+			} else {
+				id = cur + 1<<31 // exactly opposite (a group start iff n divides 2^31)
+			}
+		case "farjump":
+			switch i % 5 {
+			case 0:
+				cur += 1<<31 - un*uint32(1+x.g.Intn(3))
+				cur = cur / un * un
+				id = cur
+			default:
+				id = cur - un*uint32(i%5-1) // the groups 0..3 behind the newest
+			}
+		case "alternate":
+			if i%2 == 0 {
+				id = base + uint32(i)*un
+			} else {
+				id = base + 1<<31 + uint32(x.g.Intn(5))*un + uint32(i)*un
+			}
+		case "high":
+			id = 1<<31 + x.g.U32()%(1<<30)
+		case "paws":
+			id = paws - uint32(x.g.Intn(6*n)) + uint32(x.g.Intn(3*n))
+		default:
+			id = x.g.U32()
+		}
+		id += uint32(x.g.Intn(n)) % un // any position inside the group
+		st := x.feed(x.crafted(id, d, n), nil)
+		caseMax = max(caseMax, len(st.Sets))
+	}
+	x.o.Count(fmt.Sprintf("hostile-max-sets:%s:%d/%d=%d", pattern, d, p, caseMax))
+	x.oversizeLast(d, n, cur+5*un)
+	x.o.Case(hx.HashKey(x.key.String()))
+	x.o.Res.Cases--
+}
+
+// oversizeLast ends a case with inputs longer than a pool buffer (the callers never pass them: receive
+// buffers are mtuLimit bytes).  One that is dropped before the copy (id >= paws) must not panic; one that
+// reaches `Get()[:len(in)]` panics in the real code and in the model alike — the decoder is abandoned
+// afterwards (what follows a panic is not modelled), so this is the last op of the case.
+func (x *runner) oversizeLast(d, n int, id uint32) {
+	big := func(id uint32) []byte {
+		b := make([]byte, mtuLimit+1+x.g.Intn(200))
+		copy(b, x.crafted(id, d, n)[:fecHdr+2])
+		return b
+	}
+	x.o.Count("d:oversize-dropped")
+	x.feed(big(pawsOf(n)+uint32(x.g.Intn(int(0xffffffff-pawsOf(n))+1))), nil)
+	if x.dec.State().ShouldTune {
+		return // the tuning branch returns before the copy
+	}
+	x.o.Count("d:oversize-stored")
+	x.feed(big(id/uint32(n)*uint32(n)), nil)
+}
+
 // d10Witness replays the D10 history on the real encoder, decoder and two real KCP cores:
 // sender 3/1, receiver 2/2, three full-size segments sn 0,1,2 (ids 0,1,2) and parity id 3;
 // the receiver gets id 0 and id 3, ids 1 and 2 are lost and retransmitted later.
@@ -1137,6 +1253,17 @@ func Run(o *hx.Out, g *hx.Rng, tier string) {
 			x.youngDecoder(dp[0], dp[1], pos, 12)
 		}
 	}
+	// --- C05: forged id sequences against the bound on live shard sets
+	hsteps := 120
+	if thorough {
+		hsteps = 1500
+	}
+	for _, dp := range [][2]int{{1, 1}, {2, 2}, {10, 3}, {3, 5}, {5, 3}, {128, 128}, {20, 12}} {
+		for _, pat := range []string{"antipodal", "farjump", "alternate", "high", "paws", "random"} {
+			x.hostileIDs(dp[0], dp[1], pat, hsteps)
+		}
+	}
+	o.Note(fmt.Sprintf("largest number of live shard sets observed: %d (bound %d)", x.maxSets, maxLiveSets))
 	// --- a sender with d+p = 256 (the largest the encoder accepts): never adopted
 	x.mismatchCase(128, 128, 10, 3, 0, 0, false)
 	// --- D9: the run overlaps [paws' of the receiver, paws of the sender)
